@@ -351,14 +351,14 @@ func (r *Run) runPath(sol *Solver, item workItem) (res *PathResult, pending []wo
 				switch x := rec.(type) {
 				case goPanic:
 					res.Outcome = "panic"
-					res.Detail = ex.panicString(x.v)
+					res.Detail = ex.panicString(x.v) + " @" + ex.trace
 					if !r.PanicIsOK {
 						ex.violation("uncaught-panic", res.Detail, ex.witness)
 					}
 				case unsupported:
 					res.Outcome = "unsupported"
-					res.Detail = x.msg
-					res.Inconcl = append(res.Inconcl, "unsupported: "+x.msg)
+					res.Detail = x.msg + " @" + ex.trace
+					res.Inconcl = append(res.Inconcl, "unsupported: "+x.msg+" @"+ex.trace)
 				case fuelOut:
 					res.Outcome = "fuel"
 					res.Detail = x.what
@@ -396,6 +396,14 @@ func (ex *Exec) panicString(v Val) string {
 		switch s := x.v.(type) {
 		case string:
 			return x.t.String() + ": " + s
+		case *Val:
+			if s != nil {
+				if st, ok := (*s).(structure); ok && len(st) == 1 {
+					if m, ok := st[0].(string); ok {
+						return m
+					}
+				}
+			}
 		}
 		return x.t.String() + ": " + showVal(x.v)
 	}
